@@ -207,11 +207,12 @@ let crash_str = function
 (* ------------------------------------------------------------------------------------------------ main *)
 let () =
   let seeds = ref 3 and fuel = ref 2000000 and mode = ref "both" and verbose = ref false and only = ref "" and file = ref ""
-  and fixaps = ref false in
+  and fixaps = ref true in
   Arg.parse [ "-seeds", Arg.Set_int seeds, "number of order oracles"; "-fuel", Arg.Set_int fuel, "fuel";
               "-mode", Arg.Set_string mode, "run|step|both"; "-v", Arg.Set verbose, "print visited keys";
               "-entry", Arg.Set_string only, "only entry p.e";
-              "-fixaps", Arg.Set fixaps, "repaired variant of addNext (access paths deduplicated and sorted)" ] (fun f -> file := f) "travmodel dumpfile";
+              "-fixaps", Arg.Set fixaps, "addNext with canonical access paths (deduplicated and sorted): the default";
+              "-oldaps", Arg.Clear fixaps, "addNext as originally pinned (access paths as a list with duplicates in map order)" ] (fun f -> file := f) "travmodel dumpfile";
   let ic = if !file = "" || !file = "-" then stdin else open_in !file in
   let sections = ref [] in
   let cur = ref (new_section ()) in
